@@ -118,6 +118,20 @@ Definition Ext_ops_stmt : Prop :=
 Lemma ext_ops : Ext_ops_stmt.
 Proof. exact ext_ops_ok. Qed.
 
+(* (3c) Extension inv / div / invin / divin (Poly1Dom::invmod, a monic-normalised extended Euclid): PARTIAL correctness - whenever the
+   model returns an answer r for inv a, r * a = 1 in the ring (and (a/b) * b = a, degree < deg F); that the model always answers
+   for an irreducible F and a <> 0 is not proved: the correspondence run reports a model without answer as a broken obligation. *)
+Definition Ext_inv_stmt : Prop :=
+  forall (R : Type) (rO rI : R) (radd rmul rsub : R -> R -> R) (ropp : R -> R),
+    ring_theory rO rI radd rmul rsub ropp (@eq R) ->
+  forall p, prime p -> forall x : R, zr R rO rI radd rmul ropp p = rO ->
+  forall F, C09.ProofsAlg.canon p F -> 1 <= C09.Model.deg F -> sem R rO rI radd rmul ropp x F = rO ->
+    ext_inv_spec R rO rI radd rmul ropp p x F.
+Lemma ext_inv : Ext_inv_stmt.
+Proof. exact ext_inv_ok. Qed.
+Example ext_inv_example : e_inv 3 [1; 0; 1] [0; 1] = Some [0; 2] /\ e_div 3 [1; 0; 1] [2; 1] [1; 2] = Some [2].
+Proof. vm_compute. split; reflexivity. Qed.
+
 (* (4) array forms and dotprod: see ProofsArr (array_forms_spec, dotprod_spec, pre_decrement_loop_is_wrong). *)
 
 (* ------------------------------------------------------------ the hypotheses are satisfiable: concrete fields,
